@@ -19,6 +19,7 @@ CONSTANTS
  Goals = {2}
  Origins = {o, o2}
  AdvKinds = {}
+ NodeRank <- RankDef
  AdvSrcs = {adv}
  TrackWire = FALSE
  UseIds = FALSE
